@@ -273,6 +273,32 @@ def _data(scen, op):
 # families have unbounded likelihoods (gains of 1e17 ... 1e64 next to the location / for small shapes),
 # LogNormalNormFit estimates by moments (gains up to 78) and the gamma with free location up to 0.5 -
 # those are not judged.  Tolerance: 1e-5 per observation.
+def _ll_gain(fam, cur, free, data):
+    """largest increase of the log-likelihood by a +-0.2 % / +-2 % change of one free parameter
+    (None if the log-likelihood cannot be evaluated at the current parameters)"""
+
+    def ll(pv):
+        try:
+            with np.errstate(all="ignore"):
+                v = float(np.sum(ref_frozen(fam, pv).logpdf(data)))
+        except Exception:  # noqa: BLE001
+            return None
+        return v if math.isfinite(v) else None
+
+    l0 = ll(cur)
+    if l0 is None:
+        return None
+    best = 0.0
+    for p in free:
+        for rel in (0.002, -0.002, 0.02, -0.02):
+            q = dict(cur)
+            q[p] = cur[p] + rel * (abs(cur[p]) + 1e-3)
+            l1 = ll(q)
+            if l1 is not None:
+                best = max(best, l1 - l0)
+    return best
+
+
 TOL_I6 = {"Normal": 1e-5, "LogNormal": 1e-5, "VonMises": 1e-5, "ScipyGumbel": 1e-5}
 
 
@@ -462,8 +488,15 @@ def execute(prop, scen):
                 run.violate("I2-free-parameters-finite", f"{fam}/{op['method'].lower()}", {"params": after, "step": si})
                 return run
             if op["source"] in ("scaled", "misfixed") and all(float(after[p]) == float(before[p]) for p in free):
-                run.violate("I2-free-parameters-estimated", f"{fam}/{op['method'].lower()}", {"before": before, "after": after, "step": si})
-                return run
+                # Unchanged to the last bit.  A re-fit with one free parameter may legitimately end where
+                # it started (seen in the thorough tier: generalised gamma, m = 3.0626 after a first fit,
+                # second sample of 40 points, the simplex search returning its start vertex): not
+                # estimated means that moving the parameter would have paid off
+                gain = _ll_gain(fam, {k_: float(v_) for k_, v_ in after.items()}, free, np.asarray(data, dtype=float)) if op["method"].lower() == "mle" else None
+                if gain is None or gain > 1e-4 * len(data):
+                    run.violate("I2-free-parameters-estimated", f"{fam}/{op['method'].lower()}", {"before": before, "after": after, "log_likelihood_gain_of_a_2_percent_change": gain, "step": si})
+                    return run
+                run.count("probe:refit-returned-its-start-values-which-are-near-optimal")
             if op["method"].lower() == "mle":
                 bad = check_mle_optimal(run, scen, dist, np.asarray(data, dtype=float), si, op)
                 if bad:
